@@ -40,8 +40,10 @@ Proof.
   induction ts as [|t r IH]; intros pos pw Hw Hn; cbn [items_of wf_at no_rbrace forallb] in *; [reflexivity|].
   apply andb_true_iff in Hw as [Ht Hw]. apply andb_true_iff in Hn as [Hb Hn].
   rewrite forallb_app, (IH _ _ Hw Hn), andb_true_r.
-  destruct t as [g|n idx|par w1 n w2 idx|n ws|k|vb]; cbn [stok_match]; try reflexivity.
-  cbn [stok_text]. apply chars_brace_free; [exact Ht|apply negb_true_iff, Hb].
+  destruct t as [g|n idx|par w1 n w2 idx|n ws|k|vb|tail]; cbn [stok_match]; try reflexivity.
+  - cbn [stok_text]. apply chars_brace_free; [exact Ht|apply negb_true_iff, Hb].
+  - cbn [stok_ok] in Ht. apply andb_true_iff in Ht as [Ht _].
+    apply orb_true_iff in Ht as [E|E]; apply String.eqb_eq in E; subst tail; reflexivity.
 Qed.
 
 (* ---------- cutting a well-formed sequence at an `=` inside a gap ---------- *)
@@ -56,7 +58,7 @@ Proof.
 Qed.
 Lemma stok_ok_prefix pw t x z : stok_ok pw t (x ++ String "=" z) = true -> stok_ok pw t x = true.
 Proof.
-  destruct t as [g|n [b|]|par w1 n w2 [b|]|n ws|k|vb]; cbn [stok_ok]; auto.
+  destruct t as [g|n [b|]|par w1 n w2 [b|]|n ws|k|vb|tail]; cbn [stok_ok]; auto.
   - intros H. apply andb_true_iff in H as [H Hf]. rewrite H. cbn [andb].
     unfold var_follow in *. apply andb_true_iff in Hf as [H1 H2].
     rewrite (head_ok_prefix _ _ _ H1), (skip_ws_prefix _ _ _ H2). reflexivity.
@@ -65,6 +67,10 @@ Proof.
     destruct x as [|c x]; cbn [append head_is] in *; [discriminate Hf|exact Hf].
   - intros H. apply andb_true_iff in H as [H Hb]. apply andb_true_iff in H as [H Hr]. rewrite H. cbn [andb].
     rewrite (head_ok_prefix _ _ _ Hr), (skip_ws_prefix _ _ _ Hb). reflexivity.
+  - intros H. apply andb_true_iff in H as [H Hf]. rewrite H. cbn [andb]. unfold lt_free in *.
+    destruct (try_bracketed "<" ">" KError (String "<" (tail ++ x))) eqn:E; [|reflexivity].
+    destruct (try_bracketed_extend "<" ">" KError (tail ++ x) (String "=" z) _ E) as (m' & Hm).
+    rewrite app_assoc_s in Hm. rewrite Hm in Hf. discriminate Hf.
 Qed.
 
 Lemma last_word_app pw a c b : last_word pw (a ++ String c b) = last_word (is_word c) b.
